@@ -499,14 +499,16 @@ func runC19(c *Ctx) *Violation {
 	case 5: // create failure on write: error must surface, nothing else judged
 		c.Eval()
 		d.CreateErr[fc.name] = os.ErrPermission
+		d.Set(fc.name, []byte("<old>content</old>"))
 		werr, v := fc.write(c)
 		if v != nil {
 			return v
 		}
 		c.C["probe.create_error_checked"]++
 		c.Distinct("nontrivial", HashStr(fc.tag()).Int(5))
-		if werr == nil {
-			return &Violation{"C19.create-error-swallowed/" + fc.tag(), "os.Create failed but the file writer returned nil"}
+		if onDisk, _ := d.Get(fc.name); werr == nil && !bytes.Equal(onDisk, fc.file) {
+			// (a writer that reached the intended content some other way, e.g. temp file + rename, is fine)
+			return &Violation{"C19.create-error-swallowed/" + fc.tag(), "the target could not be created, the file does not hold the Maps, and the file writer returned nil"}
 		}
 	}
 	return nil
